@@ -22,6 +22,9 @@ pub fn line_world(ct: Ct, n: usize, async_from_start: &[usize]) -> (World, Vec<C
 	for i in 0..(n - 1) {
 		chans.push(w.open_channel(i, i + 1, 1_000_000, 400_000_000));
 	}
+	if ct != Ct::Static {
+		w.fund_wallets();
+	}
 	(w, chans)
 }
 
